@@ -33,9 +33,9 @@ def levels(tier):
              "prelude": [["batch", 0, [1, 2]], ["links", [[1, 2], [2, 1], [1, 1]]], ["we", [[0, 3]]]]},
         ]
     return [
-        {"name": "tpl-n2", "n": 2, "prelude": TPL, "alphabet": ["we", "addprefix", "rule", "page", "links", "delwe"], "links_batch": 1,
+        {"name": "tpl-n1-wide", "n": 1, "prelude": TPL, "alphabet": ["we", "addprefix", "rule", "page", "links", "delwe"], "links_batch": 1,
          "defaults": ["never", "domain"], "rule_patterns": ["path1", "subdomain"], "backends": ["memory", "file"]},
-        {"name": "n3", "n": 3, "alphabet": ["page", "links", "we", "rule"], "links_batch": 1, "defaults": ["never", "domain"],
+        {"name": "n2", "n": 2, "alphabet": ["page", "links", "we", "rule"], "links_batch": 1, "defaults": ["never"],
          "rule_patterns": ["path1"], "backends": ["memory"], "pool": [POOL4[0], POOL4[1], POOL4[3]]},
     ]
 
